@@ -2,11 +2,11 @@
 # mkmut.sh <prop> <name> <file-relative-to-repo> <sed-expression>  : record a mutant as a diff
 set -e
 cd /repo
-[ -z "$(git status --porcelain --untracked-files=no)" ] || { echo "repo dirty"; exit 1; }
+[ -z "$(git status --porcelain --untracked-files=no | grep -v verif_contracts.go)" ] || { echo "repo dirty"; exit 1; }
 sed -i "$4" "$3"
-if [ -z "$(git diff)" ]; then echo "NO CHANGE for $2"; exit 1; fi
+if [ -z "$(git diff -- "$3")" ]; then echo "NO CHANGE for $2"; exit 1; fi
 mkdir -p /verif/selftest/mutants/$1
-git diff > /verif/selftest/mutants/$1/$2.diff
+git diff -- "$3" > /verif/selftest/mutants/$1/$2.diff
 git checkout -- "$3"
 export GOFLAGS=-mod=mod GOPROXY=off
 echo "recorded $1/$2"
